@@ -60,6 +60,9 @@ def gen_case(rng, cfg, big_ok, idx):
         opts.append("gz")
         if rng.random() < 0.6:
             opts.append("zstub")
+        if rng.random() < 0.6:
+            mode = "normal"        # the only mode in which the response compresses
+            is_async = raw = False
     use_cache = (not raw) and rng.random() < 0.25
     if use_cache and "gz" in opts and "zstub" not in opts:
         opts.append("zstub")       # pages compressed by the real zlib are not predictable by the model's page cache
@@ -88,7 +91,7 @@ def gen_case(rng, cfg, big_ok, idx):
         script.append("F0")
     key = None
     if use_cache:
-        key = "k%d" % rng.randrange(6)
+        key = "k%d" % rng.randrange(40)
         script.append("C" + key)
     nops = rng.choice((0, 1, 1, 2, 3, 5, 8, 12))
     body_ops = []
